@@ -699,16 +699,19 @@ def scorerhi(ctx, z, **kwargs):
     return _scorer(ctx, z, 1, kwargs)
 
 @defun_wrapped
-def coulombc(ctx, l, eta, _cache={}):
-    if (l, eta) in _cache and _cache[l,eta][0] >= ctx.prec:
-        return +_cache[l,eta][1]
+def coulombc(ctx, l, eta):
+    # cache per context: the values are numbers of this context
+    _cache = ctx._misc_const_cache
+    key = 'coulombc', l, eta
+    if key in _cache and _cache[key][0] >= ctx.prec:
+        return +_cache[key][1]
     G3 = ctx.loggamma(2*l+2)
     G1 = ctx.loggamma(1+l+ctx.j*eta)
     G2 = ctx.loggamma(1+l-ctx.j*eta)
     v = 2**l * ctx.exp((-ctx.pi*eta+G1+G2)/2 - G3)
     if not (ctx.im(l) or ctx.im(eta)):
         v = ctx.re(v)
-    _cache[l,eta] = (ctx.prec, v)
+    _cache[key] = (ctx.prec, v)
     return v
 
 @defun_wrapped
@@ -735,9 +738,12 @@ def coulombf(ctx, l, eta, z, w=1, chop=True, **kwargs):
     return v
 
 @defun_wrapped
-def _coulomb_chi(ctx, l, eta, _cache={}):
-    if (l, eta) in _cache and _cache[l,eta][0] >= ctx.prec:
-        return _cache[l,eta][1]
+def _coulomb_chi(ctx, l, eta):
+    # cache per context: the values are numbers of this context
+    _cache = ctx._misc_const_cache
+    key = '_coulomb_chi', l, eta
+    if key in _cache and _cache[key][0] >= ctx.prec:
+        return _cache[key][1]
     def terms():
         l2 = -l-1
         jeta = ctx.j*eta
@@ -747,7 +753,7 @@ def _coulomb_chi(ctx, l, eta, _cache={}):
             ctx.loggamma(1+l2-jeta) * (-0.5j),
             -(l+0.5)*ctx.pi]
     v = ctx.sum_accurately(terms, 1)
-    _cache[l,eta] = (ctx.prec, v)
+    _cache[key] = (ctx.prec, v)
     return v
 
 @defun_wrapped
